@@ -158,6 +158,7 @@ func runScenario(sc *scenario) (res runResult) {
 // ---------------------------------------------------------------- Coq emission
 
 type emitter struct {
+	hist  []string // C05: (initial outbox items, ids of the accepted posts in order, final outbox items)
 	strs  map[string]int
 	jsons map[string]int
 	defs  strings.Builder
@@ -349,5 +350,21 @@ func (e *emitter) file(runs []string) string {
 	b.WriteString("Definition observed : list run := [\n")
 	b.WriteString(strings.Join(runs, ";\n"))
 	b.WriteString("\n].\n")
+	b.WriteString("Definition histories : list (list json * list string * list json) := [\n")
+	b.WriteString(strings.Join(e.hist, ";\n"))
+	b.WriteString("\n].\n")
 	return b.String()
+}
+
+// history records one outbox history for the C05 listing theorem.
+func (e *emitter) history(init []interface{}, ids []string, final []interface{}) {
+	e.hist = append(e.hist, fmt.Sprintf("(%s, %s, %s)", e.jsonList(init), e.strList(ids), e.jsonList(final)))
+}
+
+func (e *emitter) jsonList(l []interface{}) string {
+	q := make([]string, len(l))
+	for i, y := range l {
+		q[i] = e.json(y, false)
+	}
+	return "[" + strings.Join(q, "; ") + "]"
 }
